@@ -146,6 +146,12 @@ def step (st : St) (line : String) : St × String :=
       ({ st' with dead := true }, (o.splitOn " ph=").headD o)
     else (st', o)
   match toks with
+  | ["pkg", ids, _how] =>
+    -- `alt` / `swap`: how the harness names the chemicals of this package (other IDs for the same CAS numbers / the
+    -- usual IDs on other substances); the model's chemical ids are the CAS numbers
+    match parseNats ids with
+    | some l => if l.eraseDups.length == l.length then ({ st with w := { w with pkgs := w.pkgs ++ [l] } }, "ok") else bad st
+    | none => bad st
   | ["pkg", ids] =>
     match parseNats ids with
     | some l => if l.eraseDups.length == l.length then ({ st with w := { w with pkgs := w.pkgs ++ [l] } }, "ok") else bad st
